@@ -76,6 +76,26 @@ def make(prop, components, clauses, gen, quick=(96, 8), thorough=(1600, 40), rul
                 TRUSTED=[], plan=plan, work=work, replay=replay)
 
 
+def combine(*analysers):
+    """one analysis made of several (same run, same scenario): cases, hits, statistics and classes are pooled"""
+    def analyse(scn, out):
+        cx = analysers[0](scn, out)
+        for an in analysers[1:]:
+            c2 = an(scn, out)
+            cx.cases.extend(c2.cases)
+            cx.hits.extend(c2.hits)
+            cx.keys |= c2.keys
+            cx.skipped += c2.skipped
+            for k, v in c2.stats.items():
+                cx.stats[k] = cx.stats.get(k, 0) + v if isinstance(v, (int, float)) and isinstance(cx.stats.get(k, 0), (int, float)) else v
+        return cx
+    return analyse
+
+
+COMBINED_PRELUDE = ('From RQ Require Import Model.Num Model.Costs Model.Position Model.Account Model.AccountRun Model.Reserve Model.Closable Model.Portfolio '
+                    'Model.Sizing Model.Validators Model.Check.\nOpen Scope Q_scope.\n')
+
+
 def gen_general(rng, tier, **kw):
     """the general accounting scenario: daily mostly, some minute runs, corporate actions, flows, delisting"""
     freq = '1m' if rng.random() < kw.get('p_minute', 0.2) else '1d'
